@@ -49,6 +49,12 @@ func init() {
 		MinNonTrivial: func(t string) int { return 10000 },
 		Required:      []string{"strict_accept", "strict_reject", "setbytes_reject", "rpc_checked", "reused_receiver_checks"},
 		Assumptions:   []string{"Go regexp and encoding/hex are the reference for 'canonical'"},
+		TimeoutSec: func(t string) int {
+			if t == ev.Thorough {
+				return 3600
+			}
+			return 600
+		},
 		Run:           run,
 	})
 }
